@@ -10,7 +10,7 @@ from pathlib import Path
 from hypothesis import strategies as st
 
 from .. import core, engine, harvest, progspace, runner
-from .c03 import ADDERS, MANIFESTS, manifest_bytes
+from .c03 import ADDERS, MANIFESTS, UNUSABLE, manifest_bytes, manifest_files
 
 ID = "C09"
 LEVEL = "exploration"
@@ -84,7 +84,8 @@ def history(draw):
     mkind = draw(st.sampled_from(["none", "none", "requirements.txt", "pyproject.toml", "setup.py", "setup.cfg"]))
     if mode == "adders" and mkind == "none":
         mkind = "requirements.txt"
-    return {"sequence": seq, "files": files, "manifest": [mkind, draw(st.sampled_from(["lf", "lf", "crlf", "nofinalnl"]))]}
+    unusable = draw(st.lists(st.sampled_from(sorted(UNUSABLE)), max_size=2, unique=True)) if draw(st.integers(0, 3)) == 0 else []
+    return {"sequence": seq, "files": files, "manifest": [mkind, draw(st.sampled_from(["lf", "lf", "crlf", "nofinalnl"])), unusable]}
 
 
 def norm_result(r, root: Path):
@@ -117,10 +118,8 @@ def eval_history(case, stats=None):
             rendered.append((fc, rd))
     if not rendered:
         return []
-    extra = {}
-    mkind, mvar = case["manifest"]
-    if mkind != "none":
-        extra[mkind] = manifest_bytes(mkind, mvar)
+    mkind, mvar = case["manifest"][:2]
+    extra = manifest_files(case["manifest"])
     with runner.scratch("c09a") as ra, runner.scratch("c09b") as rb:
         # copy A: batch
         proja, rels, _ = engine.build_project(ra, seq, rendered, extra)
